@@ -62,8 +62,11 @@ def gen_mt(chk, i):
             slots.append(2 * r_)
             slots.extend([2 * r_ + 1] * group)
         nth = len(slots)
+    # thread ids: neighbours, or (two runs in three) pairs that differ by a power of two up to the largest
+    # pid_max (ids congruent modulo 2^12 .. 2^21 alive at the same time)
+    stride = [0, 32768, rng.choice([4096, 65536, 1 << 20, 1 << 21])][i % 3]
     for k in range(nth):
-        tid = 3000 + k
+        tid = 3000 + k if not stride else 3000 + k // 2 + stride * (k % 2)
         shc = c01.Shadow()
         first_wave = churn
         ops = (["barrier"] * slots[k] if churn else ["barrier"]) + ["init %d" % tid]
